@@ -513,6 +513,12 @@ def shard(arg):
                     meta.append(case)
                     ex_lines.append(expect_line(case))
                     ex_meta.append((case, why))
+                    if profile.startswith('mixed-ns') and not strip and (dt is not None or not dropd):
+                        # the mixed-namespace tree theorems are stated without a doctype option: one more
+                        # comparison of their right-hand side with the parsers, in that configuration
+                        case2 = dict(case, doctype=None, drop_xml_decl=True)
+                        ex_lines.append(expect_line(case2))
+                        ex_meta.append((case2, in_domain(js, method, {'doctype': None})))
         if len(res.samples) < 2:
             res.samples.append({'stream': js, 'profile': profile})
     answers = proto.run_lines(lines)
@@ -562,6 +568,9 @@ def shard(arg):
         if case['strip']:
             for ft in ws_features(case['stream']):
                 res.count('expect:strip-inside:' + ft)
+        if 'mixed-namespaces' in features(case['stream']):
+            # `html_roundtrip_tree_mixed_partial` / `xhtml_roundtrip_tree_mixed_tokens_partial` (+ the Lean xmlView)
+            res.count('expect:inside-mixed-namespaces:%s' % case['method'])
         realtoks = reader_canon(observed_tokens(real, case['method']), case['method']) if isinstance(real, str) else real
         if v[1] != realtoks:
             res.disagreements.append({'stream': 'expect', 'case': dict(case, output=real), 'model': repr(v[1])[:800],
